@@ -17,6 +17,28 @@ from ..pktreplay import conc, replay_queue_path, run_codec_points, truncation_sw
 PAYLOADS = ['plain', 'aaaaaa~~1111', '~a1~', {'k': ['x', 'yyyyy']}, 'tab\tnl\n"quoted"', 'é世 ~~', ['~', '~~', ''], 12, None]
 
 
+def long_runs(_case):
+    """RleLaw beyond the lengths TLC enumerates: run counts with 1-6 digits (the count is written in decimal, any length), alone and
+    next to the characters the encoding uses; as rle round trip and as packet payload / recipient."""
+    from tatsu.packetz.compact import rle_decode, rle_encode
+    from tatsu.packetz.packet import Packet, pack, unpack
+    bad = []
+    for n in (4, 9, 10, 99, 100, 999, 1000, 9999, 10000, 99999, 100000, 250000):
+        for ch in (' ', 'a', '7', '\n'):
+            for s in (ch * n, '~' + ch * n + '~1~', 'x' + ch * n + ch.upper() * 5 + 'y'):
+                try:
+                    d = rle_decode(rle_encode(s))
+                    if d != s:
+                        bad.append({'what': 'rle_decode(rle_encode(s)) != s', 'run': [ch, n], 'len': len(s), 'observed': d[:40] + ('...' if len(d) > 40 else '')})
+                        continue
+                    u = unpack(pack(Packet(to=s[:50], data={'k': [s]})))
+                    if u.data != {'k': [s]} or u.to != s[:50]:
+                        bad.append({'what': 'unpack(pack(p)) != p', 'run': [ch, n], 'len': len(s), 'observed': repr(u.data)[:60]})
+                except Exception as e:  # noqa: BLE001
+                    bad.append({'what': f'raised {type(e).__name__}: {str(e)[:60]}', 'run': [ch, n], 'len': len(s)})
+    return bad
+
+
 def id_uniqueness(case):
     """Create packets back to back for `seconds` and, through a real queue file, send and receive a sample of them."""
     import time
@@ -156,6 +178,11 @@ def run(tier):
                           'observed': {'distinct ids': o['n'] - o['duplicates'], 'repeated': o['duplicates'], 'example': o['example']},
                           'why': 'packet ids repeat: the reader drops a later packet whose id it has seen', 'spec': 'PacketQueue!NothingLost (UniqueIds)'},
                          key='idrepeat')
+        for b in pmap(long_runs, [0], procs=1)[0][:5]:
+            ck.violation({'kind': 'point', 'inputs': {'run of': b['run'][0], 'length': b['run'][1], 'string length': b['len']},
+                          'expected': 'round trip', 'observed': b.get('observed'), 'why': b['what'], 'spec': 'PacketCodec!RleLaw (long runs)'},
+                         key='longrun' + b['what'][:20])
+        ck.count(evaluations=144, traces=144)
         o = pmap(undecodable_between, [0], procs=1)[0]
         ck.count(evaluations=1, traces=1)
         flat = [x for rd in o['rounds'] if isinstance(rd, list) for x in rd]
